@@ -270,6 +270,20 @@ def run(prop: str, tier: str, seed: int) -> int:
         # the shipped instance itself: its bounds include the published optimum / best lower bound
         cases.append(eval_case(f"shipped-{nm}", F, D, perms, inst=inst))
         rep.family("shipped-matrices", len(perms), len(perms))
+    # every shipped instance, whatever its size: the values the real objective reports for the identity, the
+    # reversal and a random permutation lie inside the bounds the loaded instance declares (the truth of reported
+    # values is what the "eval" cases above establish; this family is about the bounds from_resource attaches)
+    for nm in I.list_resources():
+        inst = I.from_resource(nm)
+        obj = mods()["Obj"](inst)
+        n = inst.n
+        ps = [list(range(n)), list(range(n - 1, -1, -1)), list(range(n))]
+        rng.shuffle(ps[2])
+        vals = [int(obj.evaluate(np.array(q, dtype=np.int64))) for q in ps]
+        lo, hi = int(obj.lower_bound()), int(obj.upper_bound())
+        cases.append({"id": f"shipped-bounds-{nm}", "kind": "bounds", "n": n, "lb": big(max(lo, 0)), "ub": big(max(hi, 0)),
+                      "vals": [big(v) if v >= 0 else [-1] for v in vals], "neg": 1 if (lo < 0 or hi < 0) else 0})
+        rep.family("shipped-declared-bounds", 3, 3)
     # many facilities (index storage beyond the 8-bit ranges; the shipped instances go up to 256)
     for n in ([129, 257] if tier == "quick" else [127, 128, 129, 255, 256, 257]):
         cases.append(big_case(f"many-facilities-{n}", n, rng))
@@ -299,6 +313,11 @@ def replay(prop: str, case: dict) -> dict:
         except (ValueError, TypeError) as ex:
             return {"clause": "constructor-rejects-valid-" + ("bounds" if "true_min" in case else "matrices"),
                     "case": {**case, "error": str(ex)[:200]}}
+    if case["kind"] == "bounds":      # reported values vs declared bounds: re-validate the recorded case
+        rec = dict(case)
+        rec["id"] = "replay"
+        vs = core.validate("qap/Trace_QAP", [rec])
+        return {"clause": vs["replay"], "case": rec, "mode": "revalidated-recorded-case"}
     if case["kind"] == "parse":
         breaks = set()
         k = 0
